@@ -123,39 +123,60 @@ func c05Siblings(p *Prog, r *Report) {
 	nameF := p.Func(coqPkg, "StructToInterface.Name")
 	declF := p.Func(coqPkg, "StructToInterface.CoqDecl")
 	if nameF != nil && declF != nil {
-		ns, ok1 := printerSignature(p, nameF, true)
-		ds, ok2 := printerSignature(p, declF, true)
-		if ok1 && ok2 && len(ns) == 1 {
-			// Name: Add("<fmt>", [a,b]); the declaration's first operation: Add("Definition <fmt>…", [a,b])
-			var nsig string
-			for s := range ns {
-				nsig = s
-			}
-			if i := strings.Index(nsig, ") "); i >= 0 {
-				nsig = nsig[:i+1]
-			}
-			nf, nargs := splitAdd(nsig)
-			okAll, n := true, 0
-			why := ""
-			for s := range ds {
-				first := s
-				if i := strings.Index(s, ") "); i >= 0 {
-					first = s[:i+1]
-				}
-				df, dargs := splitAdd(first)
-				if df == "" {
-					continue // a path that prints nothing
-				}
-				n++
-				// (df == nf: the declaration calls Name itself and the call was spliced in)
-				if !(strings.HasPrefix(df, "Definition "+nf) || df == nf) || dargs != nargs {
-					okAll = false
-					why = fmt.Sprintf("the declaration starts with %q %s, the name is %q %s", df, dargs, nf, nargs)
-				}
-			}
-			r.Check("R05h", "StructToInterface.Name is the name the declaration defines", declF.Pos(), okAll && n > 0 && nf != "", why)
+		nf, nargs, okN := firstTemplate(p, nameF)
+		df, dargs, okD := firstTemplate(p, declF)
+		if okN && okD {
+			// (df == nf: the declaration calls Name itself and the call was spliced in)
+			ok := (strings.HasPrefix(df, "Definition "+nf) || df == nf) && dargs == nargs && nf != ""
+			r.Check("R05h", "StructToInterface.Name is the name the declaration defines", declF.Pos(), ok,
+				fmt.Sprintf("the declaration starts with %q %s, the name is %q %s", df, dargs, nf, nargs))
+		} else {
+			r.Note("R05h: the templates of StructToInterface.Name / CoqDecl are not single constant formats; the name agreement is not compared")
 		}
 	}
+}
+
+// firstTemplate: the constant format and the operands of the first formatted text a printer produces (a buffer Add
+// or an fmt.Sprintf), the same on all its returning paths that produce any.
+func firstTemplate(p *Prog, f *ssa.Function) (string, string, bool) {
+	keep := map[*ssa.Function]bool{}
+	for _, g := range p.FuncsIn(coqPkg) {
+		if rc := g.Signature.Recv(); rc != nil && strings.HasSuffix(rc.Type().String(), ".buffer") {
+			keep[g] = true
+		}
+	}
+	ips, ok := p.ipathsKeeping(f, keep)
+	if !ok {
+		return "", "", false
+	}
+	format, args, found := "", "", false
+	for _, ip := range ips {
+		if ip.Exit != "return" {
+			continue
+		}
+		for _, e := range ip.Events {
+			var a []string
+			switch {
+			case strings.Contains(e.Callee, ".buffer).Add") && !strings.HasSuffix(e.Callee, "AddLine") && !strings.HasSuffix(e.Callee, "AddComment") && len(e.Args) >= 3:
+				a = e.Args[1:]
+			case e.Callee == "fmt.Sprintf" && len(e.Args) >= 2:
+				a = e.Args
+			default:
+				continue
+			}
+			fm, err := strconv.Unquote(a[0])
+			if err != nil {
+				return "", "", false
+			}
+			rest := strings.Join(a[1:], ",")
+			if found && (fm != format || rest != args) {
+				return "", "", false
+			}
+			format, args, found = fm, rest, true
+			break
+		}
+	}
+	return format, args, found
 }
 
 // splitAdd takes `Add("fmt",[args])` apart.
